@@ -1,6 +1,7 @@
 import Driver.Common
 import RxModel.PipeHeap
 import RxModel.PipeProducers
+import RxModel.PipeSubscribe
 open Lean Drv
 
 namespace DrvPipe
@@ -45,6 +46,13 @@ def heapTrace (ops : List Json) : Except String Json := do
 def handle (op : String) (j : Json) : Except String Json := do
   match op with
   | "heap_trace" => heapTrace (← getArr j "ops")
+  | "subscribe_run" =>
+    let shared ← getBool j "shared"
+    let n ← getNat j "n"
+    let fuel ← getNat j "fuel"
+    let st := Pipe.subscribeRun shared n fuel
+    let evs := (subscribeEvents shared).map (fun e => match e with | .assign => Json.str "assign" | .emit => Json.str "emit")
+    pure (Json.mkObj [("pulls", .num (JsonNumber.fromNat st.pulls)), ("stopped", .bool st.flag), ("events", Json.arr evs.toArray)])
   | "from_iter" =>
     let xs ← getVals j "xs"
     let k := (j.getObjValAs? Nat "k").toOption
